@@ -36,9 +36,22 @@ def fromMappingH : Handler := fun j => do
   let kvs ← (← getArr j "items").toList.mapM (fun p => do
     let a ← p.getArr?
     if h : a.size = 2 then pure ((← a[0].getStr?), (← valOfJson a[1])) else throw "item")
-  let obj ← getBool j "object"
-  let st := if obj then fromObject kvs else fromMapping kvs
-  pure (Json.arr (st.map (fun (k, v) => Json.arr #[Json.str k, jsonOfVal v])).toArray)
+  pure (Json.arr ((fromMapping kvs).map (fun (k, v) => Json.arr #[Json.str k, jsonOfVal v])).toArray)
+
+/-- items: `[name, kind, value]` with kind one of plain / module / class / function -/
+def fromObjectH : Handler := fun j => do
+  let attrs ← (← getArr j "items").toList.mapM (fun p => do
+    let a ← p.getArr?
+    if h : a.size = 3 then
+      let kind ← match (← a[1].getStr?) with
+        | "plain" => pure AttrKind.plain
+        | "module" => pure AttrKind.module
+        | "class" => pure AttrKind.cls
+        | "function" => pure AttrKind.func
+        | other => throw s!"unknown attribute kind {other}"
+      pure ({ name := (← a[0].getStr?), kind, val := (← valOfJson a[2]) } : Attr)
+    else throw "attribute item")
+  pure (Json.arr ((fromObject attrs).map (fun (k, v) => Json.arr #[Json.str k, jsonOfVal v])).toArray)
 
 def bindH : Handler := fun j => do
   let s ← getChars j "bind"
@@ -57,7 +70,7 @@ def headersH : Handler := fun j => do
   pure (jsonOfHeaders (responseHeaders c (← getBytes j "date") (← getBytes j "protocol")))
 
 def handlers : List (String × Handler) :=
-  [("c19.cli", cli), ("c19.args", argsH), ("c19.wires", wiresH), ("c19.from_mapping", fromMappingH), ("c19.bind", bindH),
+  [("c19.cli", cli), ("c19.args", argsH), ("c19.wires", wiresH), ("c19.from_mapping", fromMappingH), ("c19.from_object", fromObjectH), ("c19.bind", bindH),
    ("c19.date", dateH), ("c19.headers", headersH)]
 
 end Driver.C19
